@@ -68,6 +68,7 @@ class EdgeSpec:
     spread: Optional[Fraction] = None
     template: Optional[str] = None       # name of an edge operator set (EdgeTemplate)
     edge_overrides: Dict[str, Fraction] = field(default_factory=dict)   # 'op/var' -> value on the edge template
+    var_map: Dict[str, str] = field(default_factory=dict)   # edge-operator input -> 'source' | 'node/op/var' (post side)
 
 
 @dataclass
@@ -169,6 +170,11 @@ def build_python(spec: ModelSpec, share_ops=True):
             attrs['spread'] = float(e.spread)
         for k, v in e.edge_overrides.items():
             attrs[k] = float(v)
+        if e.template and e.var_map:
+            for inp, m in e.var_map.items():
+                for oname in spec.edge_tpls[e.template].ops:
+                    if inp in spec.ops[oname].vars:
+                        attrs[f"{oname}/{inp}"] = m
         return (e.src, e.tgt, etpls[e.template] if e.template else None, attrs)
 
     depth = spec.depth()
